@@ -116,6 +116,31 @@ func (e *Engine) vpCall(st *State, name string, args []Value, site ssa.Instructi
 		t := e.freshVar("in_"+label, SStr)
 		in.Term = t
 		ret(st, t)
+	case "StringOf":
+		// string over a character set ("a-z0-9.:-" style ranges) with a length bound, no forking
+		label := constStr(args[0], "vp label")
+		set := constStr(args[1], "vp.StringOf charset")
+		mx := constInt(args[2], "vp.StringOf maxLen")
+		in := e.newInput(st, label, "string", "string")
+		t := e.freshVar("in_"+label, SStr)
+		in.Term = t
+		var alts []string
+		for i := 0; i < len(set); i++ {
+			if i+2 < len(set) && set[i+1] == '-' {
+				alts = append(alts, "(re.range "+smtStrLit(set[i:i+1])+" "+smtStrLit(set[i+2:i+3])+")")
+				i += 2
+			} else {
+				alts = append(alts, "(str.to_re "+smtStrLit(set[i:i+1])+")")
+			}
+		}
+		re := alts[0]
+		if len(alts) > 1 {
+			re = "(re.union " + strings.Join(alts, " ") + ")"
+		}
+		e.sol.Assert(&Term{S: "(str.in_re " + t.S + " (re.* " + re + "))", Sort: SBool})
+		e.sol.Assert(Le(StrLen(t), KInt64(int64(mx))))
+		t.lenHint = &Term{S: "(str.len " + t.S + ")", Sort: SInt, Lo: big0, Hi: big.NewInt(int64(mx))}
+		ret(st, t)
 	case "Bytes":
 		label := constStr(args[0], "vp label")
 		mx := constInt(args[1], "vp.Bytes maxLen")
